@@ -41,12 +41,12 @@ Theorem C12_parse10 : forall z s base ng r1 ds,
 Proof. exact parse10_correct. Qed.
 Print Assumptions C12_parse10.
 
-(* The same at the level of the literal's text, for base 10 and the grammar
+(* The same at the level of the literal's text, for the base arguments 10 and 0 and the grammar
    [-] digits [ "." digits ] ("e"|"E") ("+"|"-") digits  (I, F, eds are digit
    strings, I and eds non-empty; `digval s 0` is the number a digit string
    writes): Parse stores (I F) * 10^(+-eds - |F|) rounded once and consumes the
    whole string. *)
-Theorem C12_parse10_literal : forall z ng I F fch sg eds,
+Theorem C12_parse10_literal : forall base z ng I F fch sg eds, (base = 10 \/ base = 0) ->
   all_digits I = true -> I <> [] -> all_digits F = true -> (fch = 101 \/ fch = 69) ->
   (sg = 43 \/ sg = 45) -> all_digits eds = true -> eds <> [] -> digval eds 0 <= 1099511627776 ->
   let s := sign_bytes ng ++ I ++ opt_frac F ++ fch :: sg :: eds in
@@ -55,10 +55,24 @@ Theorem C12_parse10_literal : forall z ng I F fch sg eds,
   0 < v -> ndig v + 18 < 4294967296 - 18 -> zlen F < 4294967296 -> 0 <= prec z <= MaxPrec ->
   MinExp <= ndig v + e <= MaxExp ->
   let p := if prec z =? 0 then DefaultDecimalPrec else prec z in
-  exists z', Parse z s 10 = POk z' 10 [] /\
+  exists z', Parse z s base = POk z' 10 [] /\
     result_spec p (dmode z) ng (scaled v e) z' /\ prec z' = p /\ dmode z' = dmode z /\ WF z'.
 Proof. exact parse_efloat. Qed.
 Print Assumptions C12_parse10_literal.
+
+(* ... and without an exponent part:  [-] digits [ "." digits ] *)
+Theorem C12_parse10_plain : forall base z ng I F, (base = 10 \/ base = 0) ->
+  all_digits I = true -> I <> [] -> all_digits F = true ->
+  let s := sign_bytes ng ++ I ++ opt_frac F in
+  let v := digval (I ++ F) 0 in
+  let e := - zlen F in
+  0 < v -> ndig v + 18 < 4294967296 - 18 -> zlen F < 4294967296 -> 0 <= prec z <= MaxPrec ->
+  MinExp <= ndig v + e <= MaxExp ->
+  let p := if prec z =? 0 then DefaultDecimalPrec else prec z in
+  exists z', Parse z s base = POk z' 10 [] /\
+    result_spec p (dmode z) ng (scaled v e) z' /\ prec z' = p /\ dmode z' = dmode z /\ WF z'.
+Proof. exact parse_plain. Qed.
+Print Assumptions C12_parse10_plain.
 
 (* Totality: for the five legal bases, every byte string shorter than 2^29 and
    every receiver precision up to 2^30, Parse neither panics nor raises ErrNaN,
